@@ -285,7 +285,7 @@ Lemma support_bind {A B} (m : prog A) (k : A -> prog B) p b :
   In (p, b) (denote (bind m k)) ->
   exists a p1 p2, In (p1, a) (denote m) /\ In (p2, b) (denote (k a)).
 Proof.
-  revert p. induction m as [a|n f IH|n f IH|q f IH|x y f IH|f IH|ws f IH|cs f IH|lo hi f IH];
+  revert p. induction m as [a|n f IH|n f IH|q f IH|x y f IH|f IH|ws f IH|cs f IH|lo hi f IH|f IH|sure q f IH];
     intros p Hin; cbn [bind denote] in *.
   - exists a, 1, p. split; [now left|assumption].
   - apply in_flat_map in Hin. destruct Hin as [i [Hi Hin]]. apply in_dscale in Hin.
@@ -336,6 +336,22 @@ Proof.
     + exists a, (qclip lo * p1), p2. split; [|assumption]. apply in_or_app. left.
       unfold dscale. apply in_map_iff. exists (p1, a). split; [reflexivity|assumption].
     + exists a, ((1 - qclip lo) * p1), p2. split; [|assumption]. apply in_or_app. right.
+      unfold dscale. apply in_map_iff. exists (p1, a). split; [reflexivity|assumption].
+  - apply in_app_or in Hin. destruct Hin as [Hin|Hin].
+    + apply in_flat_map in Hin. destruct Hin as [i [Hi Hin]]. apply in_dscale in Hin.
+      destruct Hin as [p' Hin]. apply IH in Hin. destruct Hin as (a & p1 & p2 & H1 & H2).
+      eexists a, _, p2. split; [|eassumption]. apply in_or_app. left.
+      apply in_flat_map. exists i. split; [assumption|].
+      unfold dscale. apply in_map_iff. exists (p1, a). split; [reflexivity|assumption].
+    + apply in_dscale in Hin.
+      destruct Hin as [p' Hin]. apply IH in Hin. destruct Hin as (a & p1 & p2 & H1 & H2).
+      eexists a, _, p2. split; [|eassumption]. apply in_or_app. right.
+      unfold dscale. apply in_map_iff. exists (p1, a). split; [reflexivity|assumption].
+  - apply in_app_or in Hin. destruct Hin as [Hin|Hin]; apply in_dscale in Hin;
+      destruct Hin as [p' Hin]; apply IH in Hin; destruct Hin as (a & p1 & p2 & H1 & H2).
+    + exists a, (qclip q * p1), p2. split; [|assumption]. apply in_or_app. left.
+      unfold dscale. apply in_map_iff. exists (p1, a). split; [reflexivity|assumption].
+    + exists a, ((1 - qclip q) * p1), p2. split; [|assumption]. apply in_or_app. right.
       unfold dscale. apply in_map_iff. exists (p1, a). split; [reflexivity|assumption].
 Qed.
 
